@@ -377,9 +377,11 @@ public:
 
   MDSPAN_INLINE_FUNCTION constexpr const extents_type& extents() const noexcept { return map_.extents(); };
   MDSPAN_INLINE_FUNCTION constexpr index_type extent(size_t r) const noexcept { return map_.extents().extent(r); };
-  MDSPAN_INLINE_FUNCTION constexpr index_type size() const noexcept {
-//    return __impl::__size(*this);
-    return ctr_.size();
+  MDSPAN_INLINE_FUNCTION constexpr size_type size() const noexcept {
+    size_type value = 1;
+    for(rank_type r = 0; r < extents_type::rank(); r++)
+      value *= static_cast<size_type>(map_.extents().extent(r));
+    return value;
   };
 
 
